@@ -24,8 +24,70 @@ class Abbr:
         return s
 
 
+def _abbr(txt, subs):
+    for long, shortn in subs:
+        txt = txt.replace(long, shortn)
+    return txt
+
+
+def _abbr_table(pt, subs):
+    return set((frozenset((_abbr(f[0], subs), f[1]) for f in fs), _abbr(r, subs)) for fs, r in pt)
+
+
+def helper_tables(chk, P):
+    """Exact decision tables of the two XML helpers (which element counts as a `names` element, which
+    node is the value of attribute `label`): the tag tests with their sense, and nothing else."""
+    ve = P.body("dig::visual_elements::{closure#0}")
+    c0 = P.body("dig::visual_elements::{closure#0}::{closure#0}")
+    c1 = P.body("dig::visual_elements::{closure#0}::{closure#1}")
+    if chk.anchor("visual_elements closures", ve and c0 and c1):
+        subs = [("elem(Document::descendants(doc))", "EL"), ("Iterator::find(Node::descendants(EL), closure({closure#0}))", "NAME_NODE")]
+        t = _abbr_table(tab.predicate_table(P, ve), subs)
+        TAG = "ExpandedName::name(Node::tag_name(EL))"
+        want = {(frozenset([("Ne('visualElement', %s)" % TAG, True)]), "0"),
+                (frozenset([("Eq('visualElement', %s)" % TAG, True), ("variant(NAME_NODE)", ("None",))]), "0"),
+                (frozenset([("Eq('visualElement', %s)" % TAG, True), ("variant(NAME_NODE)", ("Some",))]), "Option::unwrap_or(Option::map(Node::text(some!(NAME_NODE)), closure({closure#1})), 0)")}
+        chk.require(t == want, "TAB", "TAB:visual_elements:exact-filter", "a node counts iff it is a visualElement with an elementName whose text is in `names` (no text / no name: not counted)", "visual_elements filters by %s" % sorted(t, key=str))
+        t0 = _abbr_table(tab.predicate_table(P, c0), subs)
+        chk.require(tab.same_function(t0, {(frozenset(), "PartialEq<&B> for &A>::eq(ExpandedName::name(Node::tag_name(elem(Node::descendants(EL)))), 'elementName')")}, bool_result=True), "TAB", "TAB:visual_elements:name-node-test", "tag == elementName", "the element-name node is found by %s" % sorted(t0, key=str))
+    at = P.body("dig::attrib")
+    a0 = P.body("dig::attrib::{closure#0}")
+    a1 = P.body("dig::attrib::{closure#1}")
+    if chk.anchor("attrib closures", at and a0 and a1):
+        t0 = tab.predicate_table(P, a0)
+        t1 = _abbr_table(tab.predicate_table(P, a1), [("try(Iterator::find(Node::descendants(node), closure({closure#0})))", "ATTRS")])
+        good = tab.same_function(t0, {(frozenset(), "PartialEq<&B> for &A>::eq(ExpandedName::name(Node::tag_name(elem(Node::descendants(node)))), 'elementAttributes')")}, bool_result=True) \
+            and tab.same_function(t1, {(frozenset(), "PartialEq<&B> for &A>::eq(ExpandedName::name(Node::tag_name(elem(Node::descendants(ATTRS)))), 'entry')")}, bool_result=True)
+        chk.require(good, "TAB", "TAB:attrib:tag-tests", "first elementAttributes descendant; its entry descendants", "attrib selects by %s / %s" % (sorted(t0, key=str), sorted(t1, key=str)))
+        hb = [bb for bb, t in at.calls() if callee_name(t)[0].endswith("Iterator>::next")]
+        if chk.anchor("attrib entry loop", len(hb) == 1):
+            subs = [("try(Iterator::find(Node::descendants(node), closure({closure#0})))", "ATTRS"),
+                    ("some!(Iterator::next(IntoIterator::into_iter(Iterator::filter(Node::descendants(ATTRS), closure({closure#1})))))", "ENTRY"),
+                    ("Iterator::next(IntoIterator::into_iter(Iterator::filter(Node::descendants(ATTRS), closure({closure#1}))))", "NEXT"),
+                    ("Node::first_element_child(ENTRY)", "FIRST")]
+            rows = set()
+            for fs, eff, how in tab.iteration_table(P, at, hb[0], effects=lambda nm: False):
+                if how == "unreachable":
+                    continue
+                rows.add((frozenset((_abbr(f[0], subs), f[1]) for f in fs), how))
+            TG = "ExpandedName::name(Node::tag_name(some!(FIRST)))"
+            TX = "Node::text(some!(FIRST))"
+            a_, b_ = sorted([TX, "Option::Some{0: label}"])
+            want = {(frozenset([("variant(NEXT)", ("None",))]), "return:None"),
+                    (frozenset([("variant(NEXT)", ("Some",)), ("variant(FIRST)", ("None",))]), "back"),
+                    (frozenset([("variant(NEXT)", ("Some",)), ("variant(FIRST)", ("Some",)), ("Ne('string', %s)" % TG, True)]), "back"),
+                    (frozenset([("variant(NEXT)", ("Some",)), ("variant(FIRST)", ("Some",)), ("Eq('string', %s)" % TG, True), ("Ne(%s, %s)" % (a_, b_), True)]), "back"),
+                    (frozenset([("variant(NEXT)", ("Some",)), ("variant(FIRST)", ("Some",)), ("Eq('string', %s)" % TG, True), ("Eq(%s, %s)" % (a_, b_), True)]), "return")}
+            chk.require(rows == want, "TAB", "TAB:attrib:exact-entry-loop", "the first entry whose first child is <string>label</string> decides; entries without children or with another key are passed over", "attrib's entry loop behaves as %s" % sorted(rows, key=str))
+            rets = set()
+            for pi in tab.paths(P, at, to_return_only=True):
+                rets.add(_abbr(canon(pi.ret()), subs))
+            chk.require(rets == {"Option::None{}", "Node::last_element_child(ENTRY)", "FromResidual::from_residual(break!(Try::branch(Iterator::find(Node::descendants(node), closure({closure#0})))))"}, "ORG", "ORG:attrib:returns-last-child-of-that-entry", "Some(entry.last_element_child()) / None", "attrib returns %s" % sorted(rets))
+
+
 def run(chk, ctx):
     P = Prog(ctx["facts"])
+    helper_tables(chk, P)
     from . import eqrules
     eqrules.require_clone(chk, P, ["Signal"], "load_test binds the test to the file's own signals")
     L = panrules.Lemmas(P, chk)
